@@ -127,7 +127,10 @@ Inductive op :=
 | OOpen (m : Z)                  (* a new RTDCWriter on the file *)
 | OWrite (data : list fv)        (* store_feature(feat, data), data non-empty *)
 | OCopy                          (* rtdc_copy into a new file (compress, repack, ...) *)
-| ODrop (mn mx me : bool).       (* a file whose dataset lacks some summaries *)
+| ODrop (mn mx me : bool)        (* a file whose dataset lacks some summaries *)
+| ORaw (data : list fv).         (* a new file whose dataset was written without the
+                                    writer (recording software, plain h5py): no summaries;
+                                    the stored dtype (float/int/uint) plays no role below *)
 
 (* rtdc_copy: attributes are copied, missing ones computed from the data *)
 Definition copy (d : sdset) : sdset :=
@@ -155,6 +158,9 @@ Definition step (s : state) (o : op) : state :=
                                        a_min := if mn then None else a_min d;
                                        a_max := if mx then None else a_max d;
                                        a_mean := if me then None else a_mean d |}) (ds s) |}
+  | ORaw data =>
+      {| mode := mode s; cnt := None;
+         ds := Some {| d_vals := data; a_min := None; a_max := None; a_mean := None |} |}
   end.
 
 Definition run (s : state) (ops : list op) : state := fold_left step ops s.
@@ -288,6 +294,7 @@ Fixpoint spec_vals (m : Z) (acc : list fv) (ops : list op) : list fv :=
   | [] => acc
   | OOpen m' :: r => spec_vals m' (if m' =? 2 then [] else acc) r
   | OWrite data :: r => spec_vals m (if m =? 1 then data else acc ++ data) r
+  | ORaw data :: r => spec_vals m data r
   | _ :: r => spec_vals m acc r
   end.
 
@@ -309,6 +316,7 @@ Definition dec_op (t : Z * Z * list (Z * Z)) : op :=
   if tag =? 0 then OOpen a
   else if tag =? 1 then OWrite (map dec data)
   else if tag =? 2 then OCopy
+  else if tag =? 4 then ORaw (map dec data)
   else ODrop (Z.odd a) (Z.odd (a / 2)) (Z.odd (a / 4)).
 
 Definition enc_fv (v : fv) : list Z :=
